@@ -6,6 +6,7 @@ package main
 // known-findings file, writes evidence and prints VIOLATION / KNOWN-FINDING lines.
 
 import (
+	"os/exec"
 	"encoding/json"
 	"flag"
 	"fmt"
@@ -392,6 +393,16 @@ func cmdCheck(args []string) int {
 		fmt.Fprintf(os.Stderr, "govc: ENGINE/CONTRACT ERROR: %s\n", e)
 	}
 
+	// bounded stand-ins (labelled bounded, never counted as proved)
+	if h, ok := boundedHarness[prop]; ok && *only == "" {
+		bv, be := runBounded(prop, h, *tier, int64(seed), *verif, replayDir, scratch)
+		violations += bv
+		engineErrors = append(engineErrors, be...)
+		for _, e := range be {
+			fmt.Fprintf(os.Stderr, "govc: ENGINE/CONTRACT ERROR: %s\n", e)
+		}
+	}
+
 	// evidence
 	var fuc []string
 	unmodelled := map[string]bool{}
@@ -489,6 +500,55 @@ func cmdCheck(args []string) int {
 }
 
 var boundedEvidence = []map[string]interface{}{}
+
+// boundedHarness: properties with a bounded run-time contract check of the real functions (go test -overlay).
+type boundedSpec struct {
+	File, PkgDir, Run, What string
+}
+
+var boundedHarness = map[string]boundedSpec{
+	"C05": {"bounded/builder_bounded_test.go", ".", "TestZZBoundedBuilder", "assumed contract of modbus.groupForSingleConnection (Go map keyed by a formatted string) and the whole-pipeline conjuncts 'every field exactly once' / 'window ends where its furthest field ends' / extraction equals device memory, on the real split / ExtractFields"},
+	"C06": {"bounded/builder_bounded_test.go", ".", "TestZZBoundedBuilder", "assumed contract of modbus.groupForSingleConnection (Go map keyed by a formatted string) and the whole-pipeline conjuncts 'every field exactly once' / 'window ends where its furthest field ends' on the real split"},
+}
+
+func runBounded(prop string, h boundedSpec, tier string, seed int64, verif, replayDir, scratch string) (int, []string) {
+	t0 := time.Now()
+	ov := filepath.Join(scratch, "bounded_overlay.json")
+	target := filepath.Join("/repo", h.PkgDir, "zz_bounded_verif_test.go")
+	b, _ := json.Marshal(map[string]interface{}{"Replace": map[string]string{target: filepath.Join(verif, h.File)}})
+	os.WriteFile(ov, b, 0644)
+	cmd := exec.Command("go", "test", "-overlay", ov, "-vet=off", "-count=1", "-timeout", "1500s", "-v", "-run", "^"+h.Run+"$", ".")
+	cmd.Dir = filepath.Join("/repo", h.PkgDir)
+	cmd.Env = append(os.Environ(), "VERIF_TIER="+tier, fmt.Sprintf("VERIF_SEED=%d", seed))
+	out, err := cmd.CombinedOutput()
+	var rep map[string]interface{}
+	for _, l := range strings.Split(string(out), "\n") {
+		if i := strings.Index(l, "BOUNDED {"); i >= 0 {
+			json.Unmarshal([]byte(l[i+8:]), &rep)
+		}
+	}
+	if rep == nil {
+		tail := string(out)
+		if len(tail) > 600 {
+			tail = tail[len(tail)-600:]
+		}
+		return 0, []string{"bounded harness " + h.File + " produced no report: " + tail}
+	}
+	rep["what"] = h.What
+	rep["label"] = "bounded - not proved"
+	rep["harness"] = h.File
+	rep["wall_s"] = round2(time.Since(t0).Seconds())
+	boundedEvidence = append(boundedEvidence, rep)
+	if v, _ := rep["violation"].(string); v != "" || err != nil {
+		path := filepath.Join(replayDir, "bounded_"+h.Run+".json")
+		rb, _ := json.MarshalIndent(map[string]interface{}{"property": prop, "kind": "bounded run-time contract check on the real code", "report": rep,
+			"rerun": fmt.Sprintf("cd /repo && go test -overlay <overlay mapping zz_bounded_verif_test.go to %s> -vet=off -run %s .", filepath.Join(verif, h.File), h.Run)}, "", " ")
+		os.WriteFile(path, rb, 0644)
+		fmt.Printf("VIOLATION property=%s replay=%s bounded-check=%q failing-input-replayed-on-real-code\n", prop, path, v)
+		return 1, nil
+	}
+	return 0, nil
+}
 var structuralEvidence = []map[string]interface{}{}
 
 func round2(f float64) float64 { return float64(int(f*100+0.5)) / 100 }
